@@ -393,6 +393,7 @@ impl Agg {
             ("log_records", c.log_records),
             ("log_yields", c.log_yields),
             ("alloc_yields", c.alloc_yields),
+            ("block_yields", c.block_yields),
         ] {
             Self::bump(&mut self.counters, k, v);
         }
@@ -1020,7 +1021,17 @@ fn main() {
             for k in 0..n {
                 let t = std::time::Instant::now();
                 match forkrun::run_forked(&p, 15_000) {
-                    Ok(o) => println!("run {k}: ok digest {:016x} steps {} ext_blocks {} noreturn {:?} herr {:?} ({:?})", o.digest, o.steps, o.ext_blocks, o.noreturn, o.harness_error, t.elapsed()),
+                    Ok(o) => {
+                        println!("run {k}: ok digest {:016x} steps {} ext_blocks {} noreturn {:?} herr {:?} ({:?})", o.digest, o.steps, o.ext_blocks, o.noreturn, o.harness_error, t.elapsed());
+                        if std::env::var_os("VERIF_SHOW_OBS").is_some() {
+                            for (ti, th) in o.calls.iter().enumerate() {
+                                for (ci, c) in th.iter().enumerate() {
+                                    println!("   t{ti} c{ci} [{}] {}", c.obs.class, clip(&c.obs.text, 160));
+                                }
+                            }
+                            println!("   counters {:?}", o.counters);
+                        }
+                    }
                     Err(e) => println!("run {k}: FAILED {e:?} ({:?})", t.elapsed()),
                 }
             }
